@@ -701,6 +701,49 @@ func checkC12(c *Check) {
 						}
 					}
 				}
+				if !okK && fn.Parent() != nil {
+					// the same sweep written with a callback iterator: the closure's parameter is handed the range key by the
+					// (store-owned) helper that walks the map and calls the closure
+					if p, isP := k.(*ssa.Parameter); isP && p.Parent() == fn {
+						pi := -1
+						for i, q := range fn.Params {
+							if q == p {
+								pi = i
+							}
+						}
+						fromRange := false
+						for _, f2 := range all {
+							for _, ci := range allCalls(f2) {
+								callee := ci.Common().StaticCallee()
+								if callee == nil || recvNamed(callee) != sr.Mem {
+									continue
+								}
+								for ai, a := range ci.Common().Args {
+									mc, isMC := a.(*ssa.MakeClosure)
+									if !isMC || mc.Fn != fn || ai >= len(callee.Params) {
+										continue
+									}
+									cp := callee.Params[ai]
+									if cp.Referrers() == nil {
+										continue
+									}
+									for _, r := range *cp.Referrers() {
+										inv, isC := r.(ssa.CallInstruction)
+										if !isC || inv.Common().Value != ssa.Value(cp) || pi >= len(inv.Common().Args) {
+											continue
+										}
+										if ex, isE := resolveCell(stripConv(inv.Common().Args[pi])).(*ssa.Extract); isE {
+											if _, isNext := ex.Tuple.(*ssa.Next); isNext {
+												fromRange = true
+											}
+										}
+									}
+								}
+							}
+						}
+						okK = fromRange
+					}
+				}
 				c.Obl(okK, "C12.R4", fmt.Sprintf("memory-key/%s#%d", fnKey(fn), nKey), P.Pos(instrPos(ins)), "map access keyed by the method's session id (or the sweep's own range key)",
 					"map access in "+fnKey(fn)+" is keyed by "+descDepth(k, 2)+", not by the method's session-id parameter")
 			}
